@@ -14,6 +14,7 @@ import (
 const nVerifID = 24
 
 var c12Once sync.Once
+var c12Custom []string
 
 func c12Setup() {
 	c12Once.Do(func() {
@@ -21,8 +22,22 @@ func c12Setup() {
 		for i := 0; i < nVerifID; i++ {
 			// identity transformations with distinct names: prefixing a rule's list with its own one
 			// makes every transformation-chain id unique, so no cache entry can be shared between rules
-			transformations.Register(fmt.Sprintf("verifid%d", i), func(s string) (string, bool, error) { return s, false, nil })
+			transformations.Register(fmt.Sprintf("verifid%d", i), verifIDs[i])
 		}
+		// user-registered transformations made by one factory (closures of one function literal), as a plugin
+		// author would write them: same code, different behaviour
+		swapper := func(from, to byte) func(string) (string, bool, error) {
+			return func(s string) (string, bool, error) {
+				if strings.IndexByte(s, from) < 0 {
+					return s, false, nil
+				}
+				return strings.ReplaceAll(s, string(from), string(to)), true, nil
+			}
+		}
+		transformations.Register("verifswapa", swapper('a', 'x'))
+		transformations.Register("verifswapb", swapper('b', 'x'))
+		transformations.Register("verifswapx", swapper('x', 'a'))
+		c12Custom = []string{"verifswapa", "verifswapb", "verifswapx"}
 	})
 }
 
@@ -66,6 +81,10 @@ func genC12Rule(t *rapid.T, r *Rule, prefixes [][]string, changing *bool) {
 	tr := append([]string(nil), rapid.SampledFrom(prefixes).Draw(t, "prefix")...)
 	more := rapid.IntRange(0, 2).Draw(t, "more")
 	for i := 0; i < more; i++ {
+		if rapid.IntRange(0, 3).Draw(t, "custom") == 0 {
+			tr = append(tr, rapid.SampledFrom(c12Custom).Draw(t, "ct"))
+			continue
+		}
 		tr = append(tr, rapid.SampledFrom(vocabData.transformations).Draw(t, "t"))
 	}
 	var clean []string
